@@ -108,7 +108,7 @@ Theorem classdef_shape : forall cfg c p name ln bases kws body decs es,
     get_assign (c_nsp c) name
       (Call (match rev (filter is_meta_kw kws') with kw :: _ => snd kw | [] => Name "type" end)
             [cstr name; ETuple bases'; EDict [] []] (filter (fun kw => negb (is_meta_kw kw)) kws')) = inl create /\
-    get_load_name (c_nsp c) [] name = inl load /\
+    get_load_name (c_nsp c) [] false name = inl load /\
     es = create :: rest.
 Proof.
   intros cfg c p name ln bases kws body decs es H. cbn [lower_stmt] in H.
@@ -118,7 +118,7 @@ Proof.
   destruct (rmap (tr (c_nsp c)) bases) as [bs|] eqn:Eb; cbn [rbind] in H; [|discriminate].
   destruct (rmap _ kws) as [ks|] eqn:Ekw; cbn [rbind] in H; [|discriminate].
   match type of H with (let! create := ?g in _) = _ => destruct g as [cr|] eqn:Ec end; cbn [rbind] in H; [|discriminate].
-  destruct (get_load_name (c_nsp c) [] name) as [ld|] eqn:El; cbn [rbind] in H; [|discriminate].
+  destruct (get_load_name (c_nsp c) [] false name) as [ld|] eqn:El; cbn [rbind] in H; [|discriminate].
   match type of H with (let! decorated := ?g in _) = _ => destruct g as [dec|] end; cbn [rbind ret] in H; [|discriminate].
   injection H as <-.
   eexists cn, bs, ks, cr, ld, _. split; [reflexivity|]. split; [exact Ek|]. split; [reflexivity|]. split; [reflexivity|].
